@@ -261,6 +261,50 @@ class Ctx:
         self.cov["transitions"] += r.get("generated", 0)
         return r
 
+    def tlc_trace_strict(self, module, cfg, events, is_reset, deque=False, max_rounds=15, overrides=None, timeout=900):
+        """Strict validation of a concatenation of independent segments (nondeterministic modules:
+        TLC must search, so there is no collect mode).  On rejection the offending segment is cut out,
+        recorded, and the remainder is validated again until everything has been examined.
+        Returns [(segment_events, index_of_first_unmatched_line_in_segment, reason)]."""
+        failures = []
+        evs = list(events)
+        rounds = 0
+        while evs:
+            rounds += 1
+            if rounds > max_rounds:
+                self.notes.append("%s: %d segments rejected; the remaining %d lines were left unexamined" % (module, len(failures), len(evs)))
+                self.log("strict validation of %s stopped after %d rejected segments" % (module, len(failures)))
+                break
+            tf = self.path("strict_%s_%d.ndjson" % (module, rounds))
+            write_jsonl(tf, evs)
+            r = self.tlc_trace(module, cfg, tf, deque=deque, overrides=overrides, timeout=timeout)
+            os.remove(tf)
+            if r["accepted"]:
+                break
+            if r["violated"]:
+                states = [int(x) for x in re.findall(r"^State (\d+):", r["out"], re.M)]
+                if not states:
+                    raise MachineryError("%s: invariant violated but no error trace:\n%s" % (module, r["out"][-2000:]))
+                line = max(states) - 1          # state k = k-1 lines consumed; the violating state consumed line k-1
+                reason = "invariant %s violated" % ",".join(r["violated"])
+            else:
+                if "depth" not in r:
+                    raise MachineryError("%s: rejected without depth:\n%s" % (module, r["out"][-2000:]))
+                line = r["depth"]               # depth d = d-1 lines matched; line d is the first unmatched
+                reason = "no behaviour of the specification matches this line"
+            if line < 1 or line > len(evs):
+                raise MachineryError("%s: rejection at line %d outside the trace (%d lines)" % (module, line, len(evs)))
+            i = line - 1
+            a = i
+            while a > 0 and not is_reset(evs[a]):
+                a -= 1
+            b = i + 1
+            while b < len(evs) and not is_reset(evs[b]):
+                b += 1
+            failures.append((evs[a:b], i - a, reason))
+            evs = evs[b:]          # segments are independent and everything before `a` has been accepted
+        return failures
+
     # ---------------------------------------------------------------- classification
     def discrepancy(self, sig, what, replay=None):
         """A behaviour of the real code that the spec does not allow. sig is the canonical signature."""
@@ -271,9 +315,14 @@ class Ctx:
                     print("KNOWN-FINDING: property=%s %s [%s] %s" % (self.prop, f["id"], sig, f["what"]), flush=True)
                 self.known_seen[f["id"]] += 1
                 return False
+        if any(v[0] == sig for v in self.violations):
+            self.violations.append((sig, what, replay))
+            return True
         if replay is None:
             replay = self.save_replay({"signature": sig, "what": what})
-        if not any(v[0] == sig for v in self.violations):
+        elif isinstance(replay, dict):
+            replay = self.save_replay(replay)
+        if True:
             print("VIOLATION property=%s replay=%s signature=%s %s" % (self.prop, replay, sig, what), flush=True)
         self.violations.append((sig, what, replay))
         return True
